@@ -1,6 +1,6 @@
 (* C45 — proofs. *)
 From Coq Require Import NArith List Bool Lia.
-From Dolt Require Import C45.Model C45.Spec.
+From Dolt Require Import C45.Model C45.Spec C45.Corr.
 Import ListNotations.
 Local Open Scope N_scope.
 
@@ -100,6 +100,36 @@ Proof.
     + cbn. rewrite ?L. reflexivity.
   - destruct (H3 eq_refl) as [[E1 E2]|[r [l [a [E1 E2]]]]]; rewrite E1, E2; reflexivity.
 Qed.
+
+(* Convergence with retries (commithook: a failed attempt only schedules nextPushAttempt = now + 1 s and changes nothing
+   else): from ANY reachable state, after ANY number of failed attempts, the first successful attempt leaves the standby
+   with the primary's newest root — provided no transition has happened.  "Eventually" is exactly this fairness
+   hypothesis: some attempt succeeds. *)
+Lemma fail_steps_noop k s : fold_left cluster_step (repeat CReplicateFail k) s = s.
+Proof.
+  induction k as [|k IH]; [reflexivity|]. cbn [repeat fold_left].
+  assert (E : cluster_step s CReplicateFail = s) by (unfold cluster_step; destruct (c_swapped s); reflexivity).
+  rewrite E. exact IH.
+Qed.
+
+Theorem converges_after_retries :
+  forall es k, let s := cluster_step (fold_left cluster_step (repeat CReplicateFail k) (cluster_run es)) CReplicateOk in
+    c_swapped s = false -> hd_error (c_applied s) = hd_error (c_log s).
+Proof. intros es k. rewrite fail_steps_noop. exact (caught_up_converges es). Qed.
+
+(* the oracle of the correspondence holds on the model's own traces — executed on a family of step lists covering every
+   step kind of both machines (the general statement is not proved: it needs the sorted-heads and commit-id bookkeeping
+   of the oracle related to the invariants above) *)
+Example oracle_on_model_examples :
+  forallb (fun i => oracle i (model_obs i))
+    [IClust [[CCommit 0]; [CCommit 3; CReplicateFail]; [CCommit 4; CReplicateFail]; [CTransition]; [CReplicateFail; CReplicateOk];
+             [CCommit 8; CReplicateOk; CAck]; [CTransition]; [CStandbyWrite 11]];
+     IClust [[CCommit 0; CReplicateOk]; [CCommit 2; CReplicateOk; CAck]; [CStandbyRestart]; [CCommit 4; CReplicateOk; CAck]; [CTransition]; [CStandbyWrite 6]; [CCommit 7]];
+     IClust [[]; [CCommit 0]; [CTransition]; [CReplicateOk]; [CAck]; [CTransition]];
+     IRepl [(0, 0)] [RCommit 0 1; RPull; RCommit 1 3; RCommit 0 4; RPull; RCommit 1 6; RPull];
+     IRepl [(0, 0)] [RPullFail; RCommitPushFail 0 2; RCommitPushFail 1 3; RPullFail; RPullFail; RPull; RCommit 0 7; RPull];
+     IRepl [(0, 0)] [RPull; RCommit 2 2; RCommit 2 3; RPull; RPull]] = true.
+Proof. vm_compute. reflexivity. Qed.
 
 (* non-vacuity: a run that commits, replicates, acknowledges and transitions *)
 Example transition_happens :
